@@ -114,7 +114,7 @@ func runScanGrammar(m *model.Model, s *ob.Set) {
 				if cal.Pkg != nil && cal.Pkg.Pkg.Path() == "strconv" {
 					switch cal.Name() {
 					case "ParseUint", "ParseInt", "ParseFloat", "Atoi":
-						bad = append(bad, fmt.Sprintf("%s: the text is converted by strconv.%s", m.InstrPos(in), cal.Name()))
+						bad = append(bad, fmt.Sprintf("%s: the text is converted by strconv.%s: the same literal can then have two values (strconv's base 0 reads a leading 0 as octal, Parse does not)", m.InstrPos(in), cal.Name()))
 					}
 					continue
 				}
@@ -126,14 +126,72 @@ func runScanGrammar(m *model.Model, s *ob.Set) {
 				if grammar[name] || name == "(*Decimal).SetInf" || name == "(*Decimal).SetPrec" || name == "(*Decimal).SetMode" {
 					continue
 				}
-				bad = append(bad, fmt.Sprintf("%s: the value is defined by %s, not by the grammar of (*Decimal).scan", m.InstrPos(in), name))
+				bad = append(bad, fmt.Sprintf("%s: the value is defined by %s, not by the grammar of (*Decimal).scan: the same literal can then have two values", m.InstrPos(in), name))
+			}
+		}
+		// who calls scan directly, with which base, after what
+		isScanState := false
+		for i, p := range fn.Params {
+			if i == 0 && fn.Signature.Recv() != nil {
+				continue
+			}
+			if n, ok := p.Type().(*types.Named); ok && n.Obj().Name() == "ScanState" {
+				isScanState = true
+			}
+		}
+		hasBaseParam := false
+		for _, p := range fn.Params {
+			if b, ok := p.Type().Underlying().(*types.Basic); ok && b.Kind() == types.Int && p.Name() == "base" {
+				hasBaseParam = true
+			}
+		}
+		for _, b := range fn.Blocks {
+			if !live[b.Index] {
+				continue
+			}
+			for _, in := range b.Instrs {
+				call, ok := in.(*ssa.Call)
+				if !ok || call.Call.StaticCallee() != scan {
+					continue
+				}
+				// (whole-text) a function that is given the complete text must not stop at the
+				// longest valid prefix: only Parse, which checks that the reader is exhausted
+				// afterwards, and the fmt.Scanner adapter (a token reader by contract) call scan
+				if !isScanState && fn.Name() != "Parse" {
+					bad = append(bad, fmt.Sprintf("%s: scan is called directly on the whole text: it accepts the longest valid prefix and leaves the rest unread (only Parse checks that nothing follows)", m.InstrPos(in)))
+				}
+				// (base) no base of its own: 0 (prefix-selected) unless the caller supplies one
+				if !hasBaseParam && len(call.Call.Args) >= 3 {
+					if k, ok := model.ConstInt(call.Call.Args[2]); !ok || k != 0 {
+						bad = append(bad, fmt.Sprintf("%s: scan is given a base that is not the constant 0 although %s has no base parameter: the verb or format does not select the base of the mantissa (the 'b' format of this package is decimal)", m.InstrPos(in), fn.Name()))
+					}
+				}
+				// (skip-space) the fmt.Scanner adapter skips leading white space itself: fmt does
+				// so only in the Scanf family
+				if isScanState {
+					skipped := false
+					for _, b2 := range fn.Blocks {
+						for _, in2 := range b2.Instrs {
+							c2, ok := in2.(*ssa.Call)
+							if !ok || !c2.Call.IsInvoke() || c2.Call.Method.Name() != "SkipSpace" {
+								continue
+							}
+							if m.InstrDominates(c2, call) {
+								skipped = true
+							}
+						}
+					}
+					if !skipped {
+						bad = append(bad, fmt.Sprintf("%s: scan is reached without SkipSpace having been called on the ScanState: Sscan/Fscan/Sscanln hand the operand over with its leading blanks", m.InstrPos(in)))
+					}
+				}
 			}
 		}
 		c := m.FuncName(fn) + "/one-grammar"
 		if len(bad) == 0 {
-			s.Ok(R, c, m.Pos(fn.Pos()), fmt.Sprintf("%d value-defining call(s), all to scan/Parse/SetInf", n))
+			s.Ok(R, c, m.Pos(fn.Pos()), fmt.Sprintf("%d value-defining call(s), all to scan/Parse/SetInf; scan is called directly only by Parse and by the fmt.Scanner adapter (after SkipSpace), with base 0 unless the caller supplies one", n))
 		} else {
-			s.Bad(R, c, m.Pos(fn.Pos()), bad[0]+": the same literal can then have two values (strconv's base 0 reads a leading 0 as octal, Parse does not)", bad[1:]...)
+			s.Bad(R, c, m.Pos(fn.Pos()), bad[0], bad[1:]...)
 		}
 	}
 
